@@ -392,6 +392,39 @@ def streams(rng, tier):
     out.append(Stream("rejected-then-retried", "hcore", ops, judge=judge_retry, nontrivial=lambda op, impl: "err type" in impl,
                       rule="seq <float item> <narrower accessors> <right accessor> on one decoder: the first call is an error (oracle); "
                            "what the later calls see (the position a rejected call leaves behind) is compared with the model"))
+    # ---- several float items behind each other, ONE decoder: every accessor call answers for the item it stands on
+    sops = []
+    def item(rng_):
+        k = rng_.random()
+        if k < 0.45:
+            b = rng_.choice([0x3ff8000000000000, 0xc004000000000001, 0x7ff0000000000000, 0x8000000000000000, 0x0000000000000001, rng_.getrandbits(64)])
+            if (b >> 52) & 0x7ff == 0x7ff and b & ((1 << 52) - 1): b = 0x7ff8000000000000
+            return f"fb{b:016x}", 64, b
+        if k < 0.8:
+            b = rng_.choice([0x3fc00000, 0x80000000, 0x7f800000, 0x00000001, 0x7f7fffff, rng_.getrandbits(32)])
+            if (b >> 23) & 0xff == 0xff and b & 0x7fffff: b = 0x3f800000
+            return f"fa{b:08x}", 32, b
+        h = rng_.choice([0x3e00, 0x0001, 0x7c00, 0xfbff, rng_.getrandbits(16)])
+        if isnan16(h): h = 0x3c00
+        return f"f9{h:04x}", 16, h
+    for _ in range(4000 if tier == "quick" else 80000):
+        its = [item(rng) for _ in range(rng.randint(2, 6))]
+        accs, exp, pos = [], [], 0
+        for hx, width, bits in its:
+            a = rng.choice([x for x in ("f16", "f32", "f64") if int(x[1:]) >= width])
+            b32 = bits if width == 32 else _T.half_to_f32_bits(bits) if width == 16 else None
+            v = bits if (a == "f64" and width == 64) else b32 if a in ("f32", "f16") else _W.f32_to_f64_bits(b32)
+            pos += len(hx) // 2
+            accs.append(a); exp.append(f"ok {v:0{16 if a == 'f64' else 8}x} {pos}")
+        sops.append(f"seq {''.join(h for h, _, _ in its)} {' '.join(accs)} #X={';'.join(exp).replace(' ', '~')}")
+    def judge_seq(op, impl, model, spec):
+        exp = [x for x in op.split(" ") if x.startswith("#X=")][0][3:].replace("~", " ")
+        if impl != exp:
+            return "violation"
+        return "ok" if impl == model else "corr"
+    out.append(Stream("float-sequences", "hcore", sops, judge=judge_seq, nontrivial=lambda op, impl: impl.startswith("ok"),
+                      rule="seq <2..6 float items of mixed widths> <a matching or wider accessor each>: one decoder, every call returns the exact value of the item "
+                           "it stands on and stops behind it (first item a full double included)"))
     # ---- blocks
     bl = blocks(rng, tier)
     st = Stream("blocks", "hcore", [a for a, _ in bl], model_ops=[b for _, b in bl], judge=judge_blk, nontrivial=nontrivial,
@@ -437,6 +470,11 @@ def replay_streams(rp):
         return [s for s in streams(__import__("random").Random(1), "quick") if s.name == "token-f16"][:1] and [Stream("replay", "hcore", [op], judge=[s for s in streams(__import__("random").Random(1), "quick") if s.name == "token-f16"][0].judge)]
     if op.startswith("tenc"):
         return [Stream("replay", "hcore", [op], judge=judge_trait)]
+    if op.startswith("seq") and "#X=" in op:
+        def j(o, impl, model, spec):
+            exp = [x for x in o.split(" ") if x.startswith("#X=")][0][3:].replace("~", " ")
+            return "violation" if impl != exp else ("ok" if impl == model else "corr")
+        return [Stream("replay", "hcore", [op], judge=j)]
     if op.startswith("seq"):
         return [Stream("replay", "hcore", [op], judge=judge_retry)]
     return [Stream("replay", "hcore", [op], judge=judge)]
